@@ -77,6 +77,15 @@ func (x *Exec) callValue(f *Frame, st *State, ins ssa.Instruction, fv Value, arg
 	return nil, false
 }
 
+func specMentions(sp *spec.FuncSpec, what string) bool {
+	for _, c := range sp.Clauses {
+		if strings.Contains(c.Text, what) {
+			return true
+		}
+	}
+	return false
+}
+
 // resultValue packs results the way go/ssa does (single value or tuple).
 func resultValue(rs []Value) Value {
 	switch len(rs) {
@@ -110,6 +119,10 @@ func (x *Exec) callStatic(f *Frame, st *State, ins ssa.Instruction, fn *ssa.Func
 		rec.fn = fn
 		rec.args = args
 		rec.pre = preSt
+		rec.post = nil
+		if f.spec != nil && specMentions(f.spec, "aftercall(") {
+			rec.post = st.clone()
+		}
 		rec.results = nil
 		rec.types = nil
 		res := fn.Signature.Results()
@@ -134,7 +147,16 @@ func (x *Exec) callStatic1(f *Frame, st *State, ins ssa.Instruction, fn *ssa.Fun
 		// call-site assertions of the function under verification ("before callee: expr")
 		for _, c := range f.spec.Of("before") {
 			if c.Name == FuncName(fn) {
+				// arg0, arg1, ...: the arguments of this call (the receiver first)
+				for i, a := range args {
+					if i < len(fn.Params) {
+						f.overTV[fmt.Sprintf("arg%d", i)] = TV{a, fn.Params[i].Type()}
+					}
+				}
 				g := f.evalBool(c.Expr, st, f.entry)
+				for i := range args {
+					delete(f.overTV, fmt.Sprintf("arg%d", i))
+				}
 				x.oblige("before@"+FuncName(fn), c.Text, fmt.Sprintf("%s:%d", shortFile(c.File), c.Line), st, g)
 				f.beforeSeen++
 			}
